@@ -52,11 +52,12 @@ def fill(shape, rng, ctr):
         x = rng.random()
         ctr[0] += 1
         if x < 0.45:
-            return ("var", rng.choice(["a", "b", "c"]))
+            # x is the variable the assignment nodes write: a bare `x` next to `(x <- ..)` makes the operand order visible
+            return ("var", rng.choice(["a", "b", "c", "x"]))
         if x < 0.7:
             return ("call", "t", [("num", str(ctr[0])), ("var", rng.choice(["a", "b", "c"]))])
         if x < 0.8:
-            return ("num", rng.choice(["1", "3", "0.5", "16"]))
+            return ("num", rng.choice(["1", "3", "0.5", "16", "0"]))
         if x < 0.88:
             return ("kw", rng.choice(["TRUE", "FALSE", "NULL"]))
         if x < 0.94:
@@ -76,6 +77,16 @@ PROBES = [
     (("num", "10000000000000000"), ("num", "1"), ("num", "1")),
     (("num", "8"), ("num", "4"), ("num", "2")),
     (("kw", "FALSE"), ("kw", "TRUE"), ("kw", "NULL")),
+    (("var", "x"), ("asg", "x", ("num", "5")), ("var", "x")),       # x op (x <- 5) op x: operand order and exactly-once evaluation
+    (("num", "0"), ("num", "0"), ("var", "s")),
+]
+
+
+# operands of a unary operator inside every other operator: zero (its sign shows), a string, a boolean
+UNARY_PROBES = [
+    (("num", "0"), ("num", "0"), ("num", "0")),
+    (("num", "3"), ("var", "s"), ("num", "0")),
+    (("kw", "TRUE"), ("num", "0"), ("kw", "NULL")),
 ]
 
 
@@ -109,9 +120,10 @@ class PROP(PropCheck):
             "order of evaluation shows, strings / lists / booleans / NULL so that type errors show); each tree is printed with only the "
             "parentheses the documented grammar requires and fully parenthesised; both are run. non-trivial = distinct tree with >= 2 operators")
 
-    def build(self, e):
+    def build(self, e, over=False):
+        """the minimal rendering and the fully parenthesised one (over: variables and literals are wrapped too)"""
         mn = SETUP + "DISPLAY(" + " ".join(P.toks(e, 0, False)) + ")\n" + TAIL
-        fl = SETUP + "DISPLAY(" + " ".join(P.toks(e, 0, True)) + ")\n" + TAIL
+        fl = SETUP + "DISPLAY(" + " ".join(P.toks(e, 0, 2 if over else True)) + ")\n" + TAIL
         return mn, fl
 
     def corpus(self):
@@ -137,19 +149,23 @@ class PROP(PropCheck):
         for n, sh in trees:
             ctr = [0]
             e = fill(sh, rng, ctr)
-            mn, fl = self.build(e)
+            mn, fl = self.build(e, over=(rng.random() < 0.5))
             out.append(Case(mn, meta={"ops": n, "full": fl}))
             fulls.append(fl)
         # associativity / grouping probes: every pair of binary operators, both nestings, with leaf triples for which regrouping
         # or re-ordering is visible (string + number + number, a sum that rounds differently when regrouped, 8 4 2, booleans)
-        for sh in shapes(2):
-            if sh[0] != "bin" or not any(k is not None and k[0] == "bin" for k in sh[2]):
+        def has_un(sh):
+            return sh is not None and (sh[0] == "un" or any(has_un(k) for k in sh[2]))
+        for sh in shapes(1) + shapes(2):
+            two_bin = sh[0] == "bin" and any(k is not None and k[0] == "bin" for k in sh[2])
+            if not two_bin and not has_un(sh):
                 continue
-            for leaves in PROBES:
+            for leaves in (PROBES if two_bin else UNARY_PROBES):
                 e = fill_fixed(sh, iter(leaves))
-                mn, fl = self.build(e)
-                out.append(Case(mn, meta={"ops": 2, "full": fl, "probe": True}))
-                fulls.append(fl)
+                for over in (False, True):
+                    mn, fl = self.build(e, over=over)
+                    out.append(Case(mn, meta={"ops": 2, "full": fl, "probe": True}))
+                    fulls.append(fl)
         # the fully parenthesised renderings are run here; the runner runs the minimal ones
         res = C.run_harness("run", [(f, {}) for f in fulls], self.budget, self.depth, tag="C05full")
         for c, r in zip(out, res):
